@@ -328,7 +328,9 @@ def malformed(ins):
     pushes = [("push", X.key("Z", "ecdsa")), ("push", X.key("Z", "schnorr")), ("push", X.Tok("hash", "z20", 20)),
               ("push", X.Tok("hash", "z32", 32)), ("push", X.Tok("key", "U", 65, True, "ecdsa-uncompressed")),
               ("push", PyVec([0x80])), ("push", PyVec([0x00])), ("push", PyVec([1, 0])), ("push", PyVec([255, 255, 255, 255, 0])),
-              ("push", PyVec([17])), ("push", PyVec([])), ("push", X.Tok("junk", "j7", 7)), ("bad", "EarlyEndOfScript")]
+              ("push", PyVec([17])), ("push", PyVec([])), ("push", X.Tok("junk", "j7", 7)), ("bad", "EarlyEndOfScript"),
+              # large well-formed numbers: a count read from the script must be bounded before anything is sized by it
+              ("push", PyVec([0xe8, 0x03])), ("push", PyVec([0x70, 0x11, 0x01])), ("push", PyVec([0xff, 0xff, 0xff, 0x7f]))]
     for i in range(len(ins) + 1):
         if i < len(ins):
             out.append(ins[:i] + ins[i + 1:])                  # delete
@@ -482,9 +484,12 @@ def check_decoder_panics(chk, F, R="R11.6"):
     bad = []
     n = 0
     for ctx in ("segwitv0", "tap"):
-        for a in ALL_OPS:
-            for b in [None] + ALL_OPS[:40]:
-                ins = [("op", a)] + ([("op", b)] if b is not None else [])
+        tiny = [[("op", a)] + ([("op", b)] if b is not None else []) for a in ALL_OPS for b in [None] + ALL_OPS[:40]]
+        # a number (small, just over the key limits, huge) followed by any opcode
+        for num in ([2], [0xe8, 0x03], [0x70, 0x11, 0x01], [0xff, 0xff, 0xff, 0x7f]):
+            tiny += [[("push", PyVec(list(num))), ("op", b)] for b in ALL_OPS]
+        for _one in (0,):
+            for ins in tiny:
                 try:
                     n += 1
                     D.decode(ins, ctx)
